@@ -157,7 +157,7 @@ func checkC03(c *Ctx) {
 		bv := kBlockView + blk + ")"
 		type gate struct {
 			id, what string
-			ok      func(FactSet, SuccessExit) bool
+			ok       func(FactSet, SuccessExit) bool
 		}
 		qcOf := kBlockQC + blk + ")"
 		gates := []gate{
